@@ -19,6 +19,7 @@ import Driver.C10
 import Driver.C12
 import Driver.C13
 import Driver.C16
+import Driver.C14
 open Lean
 
 namespace Driver
@@ -43,6 +44,7 @@ def handle (j : Json) : Json :=
   | .ok "C12" => C12.handle j
   | .ok "C13" => C13.handle j
   | .ok "C16" => C16.handle j
+  | .ok "C14" => C14.handle j
   | _ => badOp
 
 partial def loop (hin hout : IO.FS.Stream) : IO Unit := do
